@@ -21,10 +21,9 @@ object threaded through the whole game.
   invariant is `EngOK … FromGen … SizeOK` (the hypothesis of `C07_pv`, `C20_pv`, `C17_pv`), from `NewMinimax` on.
 * `lock_faithful` – at most one thinker is inside `GetMove` (so threading rule notes and engine is faithful).
 * `current_thinker_total` – a call by the thinker of the current invocation never reads the record out of range.
-* `stale_thinker_panics`, `getMove_after_gameOver_panics` – the tree before `fixes/C07-stale-thinker.diff`: a thinker
-  that got the lock after its invocation was over crashes the process; `*_fixed`: the same schedules with the fix.
-* `cairn_undo_resigns_composed`, `doubleStack_resume_resigns_composed`, `doubleStack_resume_panics_composed` – the
-  findings of work package botglue are reachable in the composed system. -/
+* `Ex.staleEvs`, `Ex.overEvs` – schedules of the stale-thinker defect (tree before `fixes/C07-stale-thinker.diff`).
+* `Ex.cairnEvs`, `Ex.dsEvs`, `Ex.dsPanicEvs` – the three FPA histories; the theorems about them (patched code and the tree
+  before `fixes/C07-fpa-record-notes.diff`) are in `Props/C07_fpa.lean`. -/
 namespace C07
 open Tak Tak.Bot Tak.Glue Tak.FPA Tak.Compose Spec.FPA
 
@@ -399,8 +398,9 @@ theorem friendly_total_of (fpa : Option (Variant × Rule)) (g : GameRec) (p : Po
 panicked, a `Friendly.GetMove` call by the thinker of the CURRENT `handleMove` invocation runs through: it does not read
 the record out of range (`f.g.Positions[len-2]`, `f.g.Moves[len-1]`), whatever the interleaving that led there (undo,
 replayed history, late thinkers).  The position the thinker was started on is still in the record, and the record
-still ends in the start position.  Assumed: the rule's own code does not panic (`C20.RuleTotal`; see
-`doubleStack_resume_panics_composed` for a reachable state where it does), and the check engine claims a win in
+still ends in the start position.  Assumed: the rule's own code does not panic on this record (`C20.RuleTotal`; with
+`fixes/C07-fpa-record-notes.diff` the notes are a function of the record — `C07.call_notes_irrelevant` — and the resumed
+game that crashed the tree before it runs through: `C07.resume_no_panic`), and the check engine claims a win in
 one only on a position that is not a start position (C05 `verdict_sound`: no road on an empty board).
 For a thinker of an EARLIER invocation the statement is false on the tree before `fixes/C07-stale-thinker.diff`
 (`stale_thinker_panics`); with the fix such a call returns before it reads anything. -/
